@@ -86,7 +86,7 @@ theorem killwait_spec (e : Env) :
 
 /-- what the loop does from iteration `i` when the first event is at iteration `k` -/
 theorem loop_signal (e : Env) (k : Nat) (s : Sig) (hs : e.sig k = some s) :
-    ∀ (fuel i : Nat), i ≤ k → k - i < fuel → (∀ m, i ≤ m → m < k → e.sig m = none ∧ e.natural m = none) →
+    ∀ (fuel i : Nat), i ≤ k → k - i < fuel → (∀ m, i ≤ m → m < k → e.sig m = none ∧ e.natural m = none ∧ e.late m = none) →
       loop e fuel i = ((killwait e).1, exitOf (killwait e).2 (some s))
   | 0, i, _, h, _ => by omega
   | fuel + 1, i, hik, hf, hq => by
@@ -94,7 +94,7 @@ theorem loop_signal (e : Env) (k : Nat) (s : Sig) (hs : e.sig k = some s) :
     by_cases e1 : i = k
     · subst e1; rw [hs]
     · have := hq i (Nat.le_refl _) (by omega)
-      rw [this.1, this.2]
+      rw [this.1, this.2.1, this.2.2]
       exact loop_signal e k s hs fuel (i + 1) (by omega) (by omega) (fun m h1 h2 => hq m (by omega) h2)
 
 /-- **A termination request or the timeout takes effect whenever it arrives**
@@ -102,7 +102,7 @@ theorem loop_signal (e : Env) (k : Nat) (s : Sig) (hs : e.sig k = some s) :
     group, the runner waits for the main process (escalating to SIGKILL), and
     exits non-zero — 124 for the timeout. -/
 theorem term_takes_effect (e : Env) (k : Nat) (s : Sig) (fuel : Nat) (hs : e.sig k = some s)
-    (hq : ∀ m, m < k → e.sig m = none ∧ e.natural m = none) (hf : k < fuel) :
+    (hq : ∀ m, m < k → e.sig m = none ∧ e.natural m = none ∧ e.late m = none) (hf : k < fuel) :
     (run e fuel).1.head? = some .killTerm ∧ (run e fuel).2 ≠ 0 ∧ (s = .alrm → (run e fuel).2 = Gen.exTimeout) ∧
     ((∃ st, (run e fuel).1.getLast? = some (.reap st)) ∨ (run e fuel).1 = [.killTerm, .killKill, .giveUp]) := by
   have h := loop_signal e k s hs fuel 0 (Nat.zero_le _) (by omega) (fun m _ h2 => hq m h2)
@@ -119,7 +119,7 @@ theorem term_takes_effect (e : Env) (k : Nat) (s : Sig) (fuel : Nat) (hs : e.sig
 /-- **Without such an event the step is never cut short**: no signal is sent
     and the runner's exit status is the main process's own. -/
 theorem never_cut_short (e : Env) (k : Nat) (st : WStatus) (fuel : Nat) (hnat : e.natural k = some st)
-    (hq : ∀ m, m < k → e.natural m = none) (hnosig : ∀ m, m ≤ k → e.sig m = none) (hf : k < fuel) :
+    (hq : ∀ m, m < k → e.natural m = none) (hnosig : ∀ m, m ≤ k → e.sig m = none ∧ e.late m = none) (hf : k < fuel) :
     run e fuel = ([.reap st], exitOf st none) := by
   unfold run
   suffices ∀ (fuel i : Nat), i ≤ k → k - i < fuel → loop e fuel i = ([.reap st], exitOf st none) from
@@ -130,10 +130,44 @@ theorem never_cut_short (e : Env) (k : Nat) (st : WStatus) (fuel : Nat) (hnat : 
   | succ n ih =>
     intro i hik hfu
     unfold loop
-    rw [hnosig i hik]
+    rw [(hnosig i hik).1]
     by_cases e1 : i = k
-    · subst e1; rw [hnat]
-    · rw [hq i (by omega)]
+    · subst e1; rw [hnat, (hnosig i hik).2]
+    · rw [hq i (by omega), (hnosig i hik).2]
+      exact ih (i + 1) (by omega) (by omega)
+
+/-- **A request that arrives between the runner's look at its signal flag and
+    the `waitpid` of the same iteration also takes effect**: if that `waitpid`
+    reaps the main process, SIGTERM is still sent to the group (the check after
+    the loop) and the exit status is non-zero (124 for the timeout); if it does
+    not, the next iteration starts the kill sequence. -/
+theorem late_signal_takes_effect (e : Env) (k : Nat) (s : Sig) (fuel : Nat) (hl : e.late k = some s)
+    (hq : ∀ m, m < k → e.sig m = none ∧ e.natural m = none ∧ e.late m = none) (hk : e.sig k = none) (hf : k < fuel) :
+    ((run e fuel).1.contains .killTermLate ∨ (run e fuel).1.head? = some .killTerm) ∧ (run e fuel).2 ≠ 0 ∧
+    (s = .alrm → (run e fuel).2 = Gen.exTimeout) := by
+  unfold run
+  suffices ∀ (fuel i : Nat), i ≤ k → k - i < fuel →
+      ((loop e fuel i).1.contains .killTermLate ∨ (loop e fuel i).1.head? = some .killTerm) ∧ (loop e fuel i).2 ≠ 0 ∧
+      (s = .alrm → (loop e fuel i).2 = Gen.exTimeout) from this fuel 0 (Nat.zero_le _) (by omega)
+  intro fuel
+  induction fuel with
+  | zero => intro i _ h; omega
+  | succ n ih =>
+    intro i hik hfu
+    unfold loop
+    by_cases e1 : i = k
+    · subst e1
+      rw [hk, hl]
+      cases hn : e.natural i with
+      | some st =>
+        have hx := exit_nonzero_after_signal st s
+        exact ⟨Or.inl (by simp), hx.1, hx.2⟩
+      | none =>
+        have hx := exit_nonzero_after_signal (killwait e).2 s
+        refine ⟨Or.inr ?_, hx.1, hx.2⟩
+        rcases killwait_spec e with ⟨st, k, _, _, _, hk'⟩ | ⟨_, st, k, _, _, _, hk'⟩ | ⟨_, _, hk'⟩ <;> simp [hk']
+    · have := hq i (by omega)
+      rw [this.1, this.2.1, this.2.2]
       exact ih (i + 1) (by omega) (by omega)
 
 /-- the exit status without a signal is the command's own -/
@@ -159,6 +193,9 @@ def envTermAt (k dur : Nat) (ignores : Bool) : Env :=
 example : run (envTermAt 0 30 false) 100 = ([.killTerm, .reap (.signaled 15)], 143) := by decide
 example : run (envTermAt 7 30 true) 100 = ([.killTerm, .killKill, .reap (.signaled 9)], 137) := by decide
 example : run (envTermAt 50 30 false) 100 = ([.reap (.exited 0)], 0) := by decide
+/-- the request arrives in the iteration whose waitpid reaps the main process -/
+example : run { envTermAt 50 3 false with late := fun i => if i = 3 then some .term else none } 100 =
+    ([.reap (.exited 0), .killTermLate], 143) := by decide
 
 end C07
 end Robsd
